@@ -18,19 +18,20 @@ VARIABLES
   i,        \* number of bytes of `pending` already consumed
   esc,      \* "n" | "b" (Escape::Slash) | "s" | "d" (Escape::Quote)
   result,   \* bytes of the argument under construction
+  started,  \* an argument has begun (a quote or a backslash begins one, even if no byte follows)
   toks,     \* arguments returned so far
   phase     \* "call" (about to call next()), "scan" (inside the loop), "done", "err"
 
-rvars == <<input, carry, pending, i, esc, result, toks, phase>>
+rvars == <<input, carry, pending, i, esc, result, started, toks, phase>>
 
 ImplInit(bytes) ==
   /\ input = bytes /\ carry = <<>> /\ pending = <<>> /\ i = 0 /\ esc = "n"
-  /\ result = <<>> /\ toks = <<>> /\ phase = "call"
+  /\ result = <<>> /\ started = FALSE /\ toks = <<>> /\ phase = "call"
 
 \* Entry of next(): take over the bytes left from the previous call.
 Call ==
   /\ phase = "call"
-  /\ pending' = carry /\ carry' = <<>> /\ result' = <<>> /\ esc' = "n" /\ i' = 0
+  /\ pending' = carry /\ carry' = <<>> /\ result' = <<>> /\ started' = FALSE /\ esc' = "n" /\ i' = 0
   /\ phase' = "scan"
   /\ UNCHANGED <<input, toks>>
 
@@ -43,13 +44,17 @@ Refill ==
         /\ pending' = SubSeq(input, 1, k)
         /\ input' = SubSeq(input, k + 1, Len(input))
   /\ i' = 0
-  /\ UNCHANGED <<carry, esc, result, toks, phase>>
+  /\ UNCHANGED <<carry, esc, result, started, toks, phase>>
 
-\* When does next() report the end of the stream?  When no argument bytes were
-\* collected in this call.  (The pinned revision tested `i == 0` instead - no byte
-\* looked at in this call - and so returned a phantom empty argument for input that
-\* ends in separators; TLC found that with input <<32>>, see DESIGN.md findings.)
-EofMeansNone == result = <<>>
+\* When does next() report the end of the stream?  When no argument has begun in
+\* this call.  (The pinned revision tested `i == 0` instead - no byte looked at in
+\* this call - and so returned a phantom empty argument for input that ends in
+\* separators; TLC found that with input <<32>>, see DESIGN.md findings.  A later
+\* revision tested `result = <<>>` here and at the separator, which loses the empty
+\* argument that '' and "" denote: COSTMODEL-like switch STARTED below.)
+CONSTANT STARTED     \* TRUE: the repaired code; FALSE: "has an argument begun" is taken to be result # <<>>
+Begun == IF STARTED THEN started ELSE result # <<>>
+EofMeansNone == ~Begun
 
 \* read() returned 0.
 Eof ==
@@ -59,7 +64,7 @@ Eof ==
           THEN phase' = "done" /\ UNCHANGED <<toks, pending>>
           ELSE /\ toks' = Append(toks, Tok(result, FALSE))
                /\ pending' = <<>> /\ phase' = "call"
-  /\ UNCHANGED <<input, carry, i, esc, result>>
+  /\ UNCHANGED <<input, carry, i, esc, result, started>>
 
 \* One byte of the buffer.
 Byte ==
@@ -69,25 +74,25 @@ Byte ==
             /\ IF (esc = "s" /\ c = SQ) \/ (esc = "d" /\ c = DQ)
                THEN esc' = "n" /\ UNCHANGED result
                ELSE result' = Append(result, c) /\ UNCHANGED esc
-            /\ i' = i + 1 /\ UNCHANGED <<carry, toks, phase>>
+            /\ i' = i + 1 /\ UNCHANGED <<carry, toks, phase, started>>
        [] esc = "b" ->
             /\ result' = Append(result, c) /\ esc' = "n"
-            /\ i' = i + 1 /\ UNCHANGED <<carry, toks, phase>>
+            /\ i' = i + 1 /\ UNCHANGED <<carry, toks, phase, started>>
        [] OTHER ->
             IF c \in {SQ, DQ}
-            THEN /\ esc' = (IF c = SQ THEN "s" ELSE "d")
+            THEN /\ esc' = (IF c = SQ THEN "s" ELSE "d") /\ started' = TRUE
                  /\ i' = i + 1 /\ UNCHANGED <<result, carry, toks, phase>>
             ELSE IF c = BS
-            THEN /\ esc' = "b" /\ i' = i + 1 /\ UNCHANGED <<result, carry, toks, phase>>
+            THEN /\ esc' = "b" /\ started' = TRUE /\ i' = i + 1 /\ UNCHANGED <<result, carry, toks, phase>>
             ELSE IF IsSep(c)
-            THEN IF result # <<>>
+            THEN IF Begun
                  THEN \* break: return the argument, keep the rest for the next call
                       /\ toks' = Append(toks, Tok(result, c = NL))
                       /\ carry' = SubSeq(pending, i + 2, Len(pending))
                       /\ phase' = "call"
-                      /\ UNCHANGED <<i, esc, result>>
-                 ELSE i' = i + 1 /\ UNCHANGED <<esc, result, carry, toks, phase>>
-            ELSE /\ result' = Append(result, c)
+                      /\ UNCHANGED <<i, esc, result, started>>
+                 ELSE i' = i + 1 /\ UNCHANGED <<esc, result, carry, toks, phase, started>>
+            ELSE /\ result' = Append(result, c) /\ started' = TRUE
                  /\ i' = i + 1 /\ UNCHANGED <<esc, carry, toks, phase>>
   /\ UNCHANGED <<input, pending>>
 
